@@ -21,6 +21,25 @@ for tc in ET.parse(junit).getroot().iter("testcase"):
     elif tc.find("skipped") is None: passed.add(tid)
 passed -= failed
 missing = [t for t in base["stable_pass"] if t not in passed]
+# timing-sensitive tests (e.g. *_performance) can fail on a loaded machine: each missing test is re-run alone, twice at most
+if missing and len(missing) <= 5:
+    still = []
+    for t in missing:
+        name = t.split("::", 1)[1] if "::" in t else t
+        name = name.split("::")[-1]
+        ok = False
+        for _ in range(2):
+            r = subprocess.run(["cargo", "nextest", "run", "--workspace", "--offline", "--test-threads", "1", name], cwd=repo, env=env,
+                               stdout=subprocess.PIPE, stderr=subprocess.STDOUT, text=True)
+            if r.returncode == 0:
+                ok = True
+                break
+        print("  retried alone:", t, "->", "passed" if ok else "FAILED again")
+        if ok:
+            passed.add(t)
+        else:
+            still.append(t)
+    missing = still
 print("passed=%d failed=%d baseline_stable=%d missing_from_pass=%d" % (len(passed), len(failed), len(base["stable_pass"]), len(missing)))
 for t in missing[:40]:
     print("  NOT PASSING:", t, "(failed)" if t in failed else "(absent)")
